@@ -81,6 +81,16 @@ def generate(rng, tier):
         files = f2 + files; rules += r2; truth[new_] = t2[old_]; info[new_] = i2[old_]
         cases.append({"files": files, "rules": rules, "truth": truth, "info": info, "jobs": jobs, "junit": True, "fail_fast": False, "refused": True,
                       "meta": {"single": "connection-refused-text"}})
+    # two selected files whose test-case names coincide (' ', '.', '-', '/' all become '_'): under -j the run must not exit 0 while one of them,
+    # which fails, was never run (refusing the run outright is fine; ignoring the second file is not)
+    for jobs in ([2] if tier == "quick" else [1, 2, 4]):
+        for order in (0, 1):
+            files = [["t/q-1.slt", "control substitution on\n\nstatement ok\nselect F90_1 $__DATABASE__\n\n"],
+                     ["t/q_1.slt", "control substitution on\n\nstatement ok\nselect F91_1 $__DATABASE__\n\n"]]
+            bad_tag = "F9%d_1" % order
+            cases.append({"files": files, "rules": [{"match": bad_tag, "err": "boom"}], "truth": {"t/q-1.slt": "fail" if order == 0 else "ok", "t/q_1.slt": "fail" if order == 1 else "ok"},
+                          "info": {"t/q-1.slt": {"tag": "F90", "kind": "fail" if order == 0 else "pass", "nrec": 1}, "t/q_1.slt": {"tag": "F91", "kind": "fail" if order == 1 else "pass", "nrec": 1}},
+                          "jobs": jobs, "junit": False, "fail_fast": False, "meta": {"single": "colliding-names"}})
     return cases
 
 
@@ -114,6 +124,11 @@ def execute(cases, tier):
         has_panic = any(i.get("kind") == "panic" for i in c["info"].values())
         if r["hung"]:
             spec = "contradicts L1: the CLI did not terminate within the timeout"
+        elif c["meta"].get("single") == "colliding-names":
+            cats["colliding-names"] += 1
+            if r["rc"] == 0:
+                spec = "contradicts L1 (C16_exit): exit status 0 although %r fails (two files with the same test-case name; reports: %r)" % (
+                    [p for p, v in truth.items() if v == "fail"], [x[:2] for x in st])
         elif has_panic:
             # the process dies of the panic (known finding D9); what must still hold: a non-zero exit status
             cats["panic-file"] += 1
@@ -156,7 +171,7 @@ def execute(cases, tier):
             code = {"OK": 0, "FAILED": 1, "CANCELLED": 2, "SKIPPED": 3}
             mcases.append([[code.get(got.get(p), 1) for p in [x[0] for x in st if x[0] in truth]], bool(c["fail_fast"]), False])
             rows.append((c, r, got))
-        if c["jobs"] and not has_panic and not r["hung"] and c.get("engine_ok", True):
+        if c["jobs"] and not has_panic and not r["hung"] and c.get("engine_ok", True) and c["meta"].get("single") != "colliding-names":
             try:
                 tr, _ = c17mod.build_trace(r["events"])
                 wire, exp = drvmodel.model_case(c, tr, [(p, tag) for p, tag, _ in st], c["jobs"], False, bool(c["fail_fast"]))
